@@ -30,76 +30,114 @@ theorem gro_coord_specs :
               .fld .z ⟨' ', .dflt, 8, 3, .f, true⟩] ∧ groDotFrom = 25 := by
   decide
 
-/-- **detection of the coordinate width.**  On every atom line `write_gro` produces — whatever the
-coordinates, overflowing or not — `read_gro` detects 8-column coordinates and no velocities,
-provided the residue and atom name contain no '.'. -/
-theorem gro_detect (serial : Nat) (a : Atom)
-    (hrn : (a.resname.getD []).all (· ≠ '.') = true) (han : (a.atomname.getD []).all (· ≠ '.') = true) :
-    (groDetect gro (groLine gro serial a)).slices = groSlices 8 ∧
-    (groDetect gro (groLine gro serial a)).hasVel = false := by
-  let env := atomEnv serial a
+def dotCount (l : List Char) : Nat := (l.filter (· = '.')).length
+
+/-- **detection of the format, in general.**  On the atom line `write_gro` produces for ANY atom —
+any coordinates, any names, points in the names included — followed by anything (`V`: nothing, or
+the velocity fields): `read_gro` searches the two points that give it the column width from column
+25 on, i.e. inside the coordinate block, and always finds 8 columns; and it decides on velocities
+by counting the points from column 20 on, i.e. after the four identifier fields: three from the
+coordinates plus those of `V`.  Points in residue or atom names never influence the detection
+(since the repair of F-C16-4; the old rule: `gro_detect_old_rule_witness`). -/
+theorem gro_detect_gen (serial : Nat) (a : Atom) (V : List Char) :
+    (groDetect gro (groLine gro serial a ++ V)).hasVel = decide (3 + dotCount V = 6) ∧
+    (groDetect gro (groLine gro serial a ++ V)).slices =
+      if 3 + dotCount V = 6 then groSlicesV 8 else groSlices 8 := by
   let sd : Spec := ⟨' ', .dflt, 5, 0, .d, true⟩
   let sf : Spec := ⟨' ', .dflt, 8, 3, .f, true⟩
   obtain ⟨T1, F1, h1, hT1, hF1, dT1, dF1⟩ := renderField_fix_shape sf a.x rfl rfl rfl (by decide) (by decide) (by decide)
   obtain ⟨T2, F2, h2, hT2, hF2, dT2, dF2⟩ := renderField_fix_shape sf a.y rfl rfl rfl (by decide) (by decide) (by decide)
   obtain ⟨T3, F3, h3, hT3, hF3, dT3, dF3⟩ := renderField_fix_shape sf a.z rfl rfl rfl (by decide) (by decide) (by decide)
-  let A : List Char := renderField sd (.int (a.resid.getD 1)) ++ renderField ⟨' ', .left, 5, 0, .s, true⟩ (.str (a.resname.getD []))
-    ++ renderField ⟨' ', .right, 5, 0, .s, true⟩ (.str (a.atomname.getD [])) ++ renderField sd (.int serial)
+  let A : List Char := renderField sd (.int (a.resid.getD 1)) ++
+    renderField ⟨' ', .left, 5, 0, .s, true⟩ (.str (a.resname.getD [])) ++
+    renderField ⟨' ', .right, 5, 0, .s, true⟩ (.str (a.atomname.getD [])) ++ renderField sd (.int serial)
   have hA : A.length = 20 := by
     simp only [A, List.length_append]
     rw [length_renderField _ _ rfl (by decide), length_renderField _ _ rfl (by decide),
       length_renderField _ _ rfl (by decide), length_renderField _ _ rfl (by decide)]
     rfl
-  have dA : A.all (· ≠ '.') = true := by
-    simp only [A, List.all_append, Bool.and_eq_true]
-    refine ⟨⟨⟨?_, ?_⟩, ?_⟩, ?_⟩
-    · exact renderField_all _ _ _ (by decide) (intRepr_all_ne '.' (by decide) (by decide) _)
-    · exact renderField_all _ _ _ (by decide) hrn
-    · exact renderField_all _ _ _ (by decide) han
-    · exact renderField_all _ _ _ (by decide) (intRepr_all_ne '.' (by decide) (by decide) _)
   have hline : groLine gro serial a = A ++ (T1 ++ '.' :: F1) ++ (T2 ++ '.' :: F2) ++ (T3 ++ '.' :: F3) := by
     rw [← h1, ← h2, ← h3]
     simp [groLine, gro, groFmt, render, segText, A, atomEnv, sd, sf]
   simp only [sf] at hT1 hT2 hT3 hF1 hF2 hF3
-  -- first search: from column 25
-  have hd1 : (groLine gro serial a).drop 25 = (F1 ++ T2) ++ '.' :: (F2 ++ (T3 ++ '.' :: F3)) := by
-    have : groLine gro serial a = (A ++ T1 ++ ['.']) ++ ((F1 ++ T2) ++ '.' :: (F2 ++ (T3 ++ '.' :: F3))) := by
+  have hd1 : (groLine gro serial a ++ V).drop 25 = (F1 ++ T2) ++ '.' :: (F2 ++ (T3 ++ '.' :: F3) ++ V) := by
+    have : groLine gro serial a ++ V = (A ++ T1 ++ ['.']) ++ ((F1 ++ T2) ++ '.' :: (F2 ++ (T3 ++ '.' :: F3) ++ V)) := by
       rw [hline]; simp
     rw [this]
     exact drop_append_len _ _ 25 (by simp [hA, hT1])
-  have hf1 : findFrom (groLine gro serial a) '.' 25 = some 32 := by
+  have hf1 : findFrom (groLine gro serial a ++ V) '.' 25 = some 32 := by
     have := findFrom_spec _ '.' 25 _ _ hd1 (by
       intro x hx
       rcases List.mem_append.mp hx with h | h
       · simpa using List.all_eq_true.mp dF1 x h
       · simpa using List.all_eq_true.mp dT2 x h)
     rw [this]; simp [hF1, hT2]
-  have hd2 : (groLine gro serial a).drop 33 = (F2 ++ T3) ++ '.' :: F3 := by
-    have : groLine gro serial a = (A ++ T1 ++ ['.'] ++ F1 ++ T2 ++ ['.']) ++ ((F2 ++ T3) ++ '.' :: F3) := by
+  have hd2 : (groLine gro serial a ++ V).drop 33 = (F2 ++ T3) ++ '.' :: (F3 ++ V) := by
+    have : groLine gro serial a ++ V = (A ++ T1 ++ ['.'] ++ F1 ++ T2 ++ ['.']) ++ ((F2 ++ T3) ++ '.' :: (F3 ++ V)) := by
       rw [hline]; simp
     rw [this]
     exact drop_append_len _ _ 33 (by simp [hA, hT1, hF1, hT2])
-  have hf2 : findFrom (groLine gro serial a) '.' 33 = some 40 := by
+  have hf2 : findFrom (groLine gro serial a ++ V) '.' 33 = some 40 := by
     have := findFrom_spec _ '.' 33 _ _ hd2 (by
       intro x hx
       rcases List.mem_append.mp hx with h | h
       · simpa using List.all_eq_true.mp dF2 x h
       · simpa using List.all_eq_true.mp dT3 x h)
     rw [this]; simp [hF2, hT3]
-  have hcount : ((groLine gro serial a).filter (· = '.')).length = 3 := by
-    rw [hline]
-    simp only [List.filter_append, List.filter_cons, decide_true, if_true,
-      filter_eq_nil_of_all_ne _ _ dA, filter_eq_nil_of_all_ne _ _ dT1, filter_eq_nil_of_all_ne _ _ dF1,
+  -- the part of the line the reader counts: everything after the 20 identifier columns
+  have hd20 : (groLine gro serial a ++ V).drop 20 = (T1 ++ '.' :: F1) ++ (T2 ++ '.' :: F2) ++ (T3 ++ '.' :: F3) ++ V := by
+    have : groLine gro serial a ++ V = A ++ ((T1 ++ '.' :: F1) ++ (T2 ++ '.' :: F2) ++ (T3 ++ '.' :: F3) ++ V) := by
+      rw [hline]; simp
+    rw [this]
+    exact drop_append_len _ _ 20 hA
+  have hcount : (((groLine gro serial a ++ V).drop 20).filter (· = '.')).length = 3 + dotCount V := by
+    rw [hd20]
+    simp only [dotCount, List.filter_append, List.filter_cons, decide_true, if_true, List.length_append,
+      List.length_cons, filter_eq_nil_of_all_ne _ _ dT1, filter_eq_nil_of_all_ne _ _ dF1,
       filter_eq_nil_of_all_ne _ _ dT2, filter_eq_nil_of_all_ne _ _ dF2, filter_eq_nil_of_all_ne _ _ dT3,
-      filter_eq_nil_of_all_ne _ _ dF3]
-    rfl
+      filter_eq_nil_of_all_ne _ _ dF3, List.length_nil]
+    try omega
   have hdot : gro.dotFrom = 25 := rfl
+  have hcf : gro.countFrom = 20 := rfl
   unfold groDetect
-  rw [hdot, hf1, hcount]
+  rw [hdot, hcf, hf1, hcount]
   dsimp only
   have e : (((32 : Nat) : Int) + 1).toNat = 33 := by decide
   rw [e, hf2]
-  constructor <;> decide
+  by_cases hv : 3 + dotCount V = 6
+  · simp only [hv, decide_true, if_true]
+    constructor
+    · trivial
+    · decide
+  · simp only [hv, decide_false, if_false]
+    constructor
+    · trivial
+    · decide
+
+/-- **detection of the coordinate width.**  On EVERY atom line `write_gro` produces without
+velocities — whatever the coordinates, overflowing or not, whatever the names, points included —
+`read_gro` detects 8-column coordinates and no velocities. -/
+theorem gro_detect (serial : Nat) (a : Atom) :
+    (groDetect gro (groLine gro serial a)).slices = groSlices 8 ∧
+    (groDetect gro (groLine gro serial a)).hasVel = false := by
+  have h := gro_detect_gen serial a []
+  simp only [List.append_nil] at h
+  have hne : ¬ (3 + dotCount [] = 6) := by
+    simp only [dotCount, List.filter_nil, List.length_nil]; omega
+  rw [h.1, h.2]
+  simp [hne]
+
+/-- F-C16-4 (repaired in the repository): with the OLD rule — count the points of the whole line —
+the first atom `A.B.` / `C.` (three points in its names, no velocities written) is taken for a line
+with velocities; with the rule in the source now it is not. -/
+theorem gro_detect_old_rule_witness :
+    (groDetect { gro with countFrom := 0 }
+      (groLine gro 1 { exAtom with resname := some "A.B.".toList, atomname := some "C.".toList, resid := some 1 })).hasVel
+      = true ∧
+    (groDetect gro
+      (groLine gro 1 { exAtom with resname := some "A.B.".toList, atomname := some "C.".toList, resid := some 1 })).hasVel
+      = false := by
+  decide +kernel
 
 /-! ## the atom line -/
 
@@ -134,20 +172,18 @@ def gAtomOf (serial : Nat) (a : Atom) : GAtom :=
     element := ((a.atomname.getD []).find? isAsciiLetter).getD ' ' }
 
 /-- one atom fits its GRO line: values within their columns, a letter in the atom name (the reader
-derives the element from it), residue name not excluded, no '.' in the names (the reader counts
-the points of the first line) -/
+derives the element from it), residue name not excluded.  Points in the names are fine. -/
 def groAtomFitsB (excl : List (List Char)) (serial : Nat) (a : Atom) : Bool :=
   (groSlices 8).all (fun sl => fitsFieldB (specAtGro sl) (atomEnv serial a sl.name)) &&
   ((a.atomname.getD []).find? isAsciiLetter).isSome &&
-  !(excl.contains (a.resname.getD [])) &&
-  (a.resname.getD []).all (· ≠ '.') && (a.atomname.getD []).all (· ≠ '.')
+  !(excl.contains (a.resname.getD []))
 
 theorem gro_line_parse (excl : List (List Char)) (serial : Nat) (a : Atom) (n idx : Nat)
     (h : groAtomFitsB excl serial a = true) :
     groParseLine excl false ⟨groSlices 8, false⟩ n idx (groLine gro serial a) = .ok (.keep (gAtomOf serial a)) := by
   unfold groAtomFitsB at h
   simp only [Bool.and_eq_true, Bool.not_eq_true', List.all_eq_true] at h
-  obtain ⟨⟨⟨⟨hfit, hlet⟩, hex⟩, _⟩, _⟩ := h
+  obtain ⟨⟨hfit, hlet⟩, hex⟩ := h
   have hr := gro_record_roundtrip serial a (fun sl hsl => fitsFieldB_iff _ _ (hfit sl hsl))
   unfold groParseLine
   simp only [hr]
@@ -229,10 +265,7 @@ theorem gro_file_roundtrip (excl : List (List Char)) (sys : List Mol) (title : L
   | cons p ps =>
     rw [hps] at hall
     have hp := hall p (by simp)
-    have hp' := hp
-    unfold groAtomFitsB at hp'
-    simp only [Bool.and_eq_true] at hp'
-    obtain ⟨d1, d2⟩ := gro_detect p.1 p.2 hp'.1.2 hp'.2
+    obtain ⟨d1, d2⟩ := gro_detect p.1 p.2
     have hdet : groDetect gro (groLine gro p.1 p.2) = ⟨groSlices 8, false⟩ := by
       cases hd : groDetect gro (groLine gro p.1 p.2) with
       | mk sl hv => rw [hd] at d1 d2; simp only at d1 d2; rw [d1, d2]
